@@ -535,6 +535,10 @@ Lemma was_pending_now :
   gen_kind_mids was_pending = [[(KAudio, Some "40"); (KVideo, Some "42")]].
 Proof. vm_compute. reflexivity. Qed.
 
+(* greaterMid wraps: two transceivers end up with the mid MinInt64 *)
+Lemma wit_c09_overflow : ~ NoDup (set_mids (trs (run wit_overflow))).
+Proof. intro H. apply nodupb_sound in H. vm_compute in H. discriminate. Qed.
+
 (* premises of the extension lemma on a concrete renegotiation *)
 Definition st_reneg : st :=
   run [AddTransceiver MAudio Sendrecv; AddTransceiver MVideo Recvonly; CreateDataChannel;
